@@ -227,6 +227,7 @@ type Call struct {
 	RespTok  string
 	RespCode int
 	Err      error
+	Gid      int64 // goroutine that made the call (foreground calls run on the caller's goroutine)
 }
 
 func (c *Call) String() string {
@@ -262,7 +263,7 @@ func NewOrigin() *Origin { return &Origin{Toks: map[string]*Tok{}} }
 
 func (o *Origin) RoundTrip(req *http.Request) (*http.Response, error) {
 	o.mu.Lock()
-	call := &Call{Seq: len(o.Calls), Method: req.Method, URL: req.URL.String(), Header: req.Header.Clone(), At: time.Now(), CtxErr: req.Context().Err(), Req: req}
+	call := &Call{Seq: len(o.Calls), Method: req.Method, URL: req.URL.String(), Header: req.Header.Clone(), At: time.Now(), CtxErr: req.Context().Err(), Req: req, Gid: Gid()}
 	o.Calls = append(o.Calls, call)
 	h := o.Handler
 	o.mu.Unlock()
@@ -430,6 +431,7 @@ type W struct {
 	Epoch  time.Time
 	rel    func()
 	LogBuf *bytes.Buffer
+	NoWait bool // do not wait for quiescence at the end of Do (outside a bubble)
 }
 
 // Opt configures New.
@@ -499,7 +501,8 @@ type Obs struct {
 	CacheStatus string
 	Tok         string // token parsed from the body ("" if none)
 	HdrTok      string
-	Calls       []*Call // origin calls during the foreground call
+	Calls       []*Call // origin calls made on the caller's goroutine (foreground)
+	BgCalls     []*Call // origin calls made by other goroutines, up to quiescence after the call
 	Ops         []Op    // store ops during the foreground call
 	Dur         time.Duration
 	ReqChanged  string // non-empty if the caller's request was modified
@@ -516,7 +519,7 @@ func (o *Obs) String() string {
 	if o.Err != nil {
 		return fmt.Sprintf("ERR %v calls=%d", o.Err, len(o.Calls))
 	}
-	return fmt.Sprintf("%d %s tok=%s age=%q calls=%d", o.Status, o.CacheStatus, o.Tok, o.Header.Get("Age"), len(o.Calls))
+	return fmt.Sprintf("%d %s tok=%s age=%q calls=%d bg=%d", o.Status, o.CacheStatus, o.Tok, o.Header.Get("Age"), len(o.Calls), len(o.BgCalls))
 }
 
 // Req builds a request. hdr is name, value pairs.
@@ -569,7 +572,6 @@ func (w *W) Do(req *http.Request) *Obs {
 		o.Resp, o.Err = w.RT.RoundTrip(req)
 	}()
 	o.Dur = time.Since(o.At)
-	o.Calls = w.Origin.CallsSince(n0)
 	if w.Conn != nil {
 		o.Ops = w.Conn.OpsSince(c0)
 	}
@@ -596,6 +598,17 @@ func (w *W) Do(req *http.Request) *Obs {
 		}
 		if i := bytes.IndexByte(o.Body, '|'); i > 0 && bytes.HasPrefix(o.Body, []byte("tok")) {
 			o.Tok = string(o.Body[:i])
+		}
+	}
+	if !w.NoWait {
+		synctest.Wait()
+	}
+	me := Gid()
+	for _, c := range w.Origin.CallsSince(n0) {
+		if c.Gid == me {
+			o.Calls = append(o.Calls, c)
+		} else {
+			o.BgCalls = append(o.BgCalls, c)
 		}
 	}
 	return o
